@@ -68,5 +68,49 @@ CHECKS["C09"] = {
     "note": "trusted: TLC + Json module, the shared canonical subject order (cross-checked by the explicit-subject judge); the end-to-end clause "
             "(a rejected certificate aborts the run before anything is written) is exercised in the C10/C18 filesystem replays",
 }
+_LIFE_NOTE = ("trusted: TLC; the projection package (encoding/pem + encoding/asn1 shadow structures, standard-library RSA/ECDSA for NIST curves, "
+              "own math/big arithmetic for brainpool) which reads the abstract state off the real directory; the simulated filesystem "
+              "(logical clock, fault plan). Bounded: 3 entities (chain / star / two roots), 2-3 content values, environment steps <= 2 (quick) / 3 "
+              "(thorough) + seeded random histories of length 10-12; expiry and profile edits are not part of this model (C11 table / C08).")
+CHECKS["C10"] = {
+    "engine": "tlc-spec", "category": "model_checking", "design_ref": "6/C10, 3 (Repo.tla), A.4",
+    "technique": "TLC model checking of Repo.tla (invariant Idempotent over all 16 flag sets without generate-all) + exploration of the same "
+                 "alphabet on the real code with an immediate second run and full directory snapshots, trace-validated by TLC",
+    "text": "TLC checks on the bounded directory life-cycle model that after every successful run nothing must be regenerated. The driver "
+            "reaches every projected state of the same bounds on the real code (simulated filesystem), performs every run with all 16 flag "
+            "sets, then runs again: TLC judges each recorded step (transition allowed by Repo!RunMacro, changed files = artifacts of the "
+            "planned entities, nothing else created/modified/deleted, second run plans nothing and changes nothing).",
+    "note": _LIFE_NOTE + " The CLI consent path (y/N) is checked by the CLI slice of this check.",
+}
+CHECKS["C12"] = {
+    "engine": "tlc-spec", "category": "model_checking", "design_ref": "6/C12, 3 (Repo.tla), A.4",
+    "technique": "TLC model checking of Repo.tla (ConvergedAfterDefault, NoRefreshWithoutHash, DefaultRunCompletes, ChainOnRun) + exhaustive "
+                 "bounded exploration and random histories on the real code, every transition trace-validated by TLC against Repo!Apply",
+    "text": "The specification is a state machine of the directory (configs, artifacts, mtime relations) with user actions (edit, touch, delete, "
+            "truncate in three cut classes, strip key, replace by user-supplied cert+key, replace by CSR) and runs. TLC proves convergence after "
+            "a default run for all histories within the bound; the driver performs every action of the alphabet from every state it reaches on "
+            "the real code and TLC judges post \\in Apply(pre, action) plus Converged(post) after every successful default run.",
+    "note": _LIFE_NOTE,
+}
+CHECKS["C14"] = {
+    "engine": "tlc-spec", "category": "model_checking", "design_ref": "6/C14, 3 (Repo.tla)",
+    "technique": "TLC action property KeysKept on Repo.tla + real-code exploration where key identity (public key derived independently from "
+                 "PKCS#8 / CSR / certificate bytes) before and after every write is part of the trace TLC validates",
+    "text": "For every entity a run writes, the trace carries the identity of the key material before and after and of the certificate's public "
+            "key; TLC rejects a step where an existing key or request is replaced, a private key appears next to a request, the request "
+            "disappears, or the new certificate does not carry that key. Children's signatures staying valid across a parent regeneration "
+            "is part of the abstract state (sigok) and hence of the transition judgement.",
+    "note": _LIFE_NOTE + " Key types here: P-256 generated, P-256 user-supplied PKCS#8 and CSR; the sweep over all 14 key types and foreign encodings is under C17/C05.",
+}
+CHECKS["C15"] = {
+    "engine": "tlc-spec", "category": "fault_enumeration", "design_ref": "6/C15, 3 (Repo.tla)",
+    "technique": "fault enumeration: every WriteFile of every run x {error, death after write, torn in each cut class}, on the real code over a "
+                 "simulated filesystem; recovery judged by TLC against Repo.tla (WriteErr/WriteTorn/Die actions, Converged after the next default run)",
+    "text": "Repo.tla has the crash actions as first-class steps and TLC checks that from every reachable state (including all post-crash states) "
+            "a default run completes and converges, and a further run is a no-op. On the real code every run of the exploration is repeated "
+            "with the k-th write failing in each way; the resulting directory is a new node from which the default run and its re-run are "
+            "executed and judged; an injected write error must surface as a failed run.",
+    "note": _LIFE_NOTE + " Torn offsets are seeded within each cut class; the abstract cut class is what the projection observes, not what was requested.",
+}
 for e in ENGINES:
     e["serves_properties"] = sorted(CHECKS)
